@@ -1024,6 +1024,11 @@ func ChildC11(rep *report.Report, tier, part string) {
 		if sc.name != part {
 			continue
 		}
+		if os.Getenv("VERIF_MAPCHOICES") != "" || tier == "thorough" {
+			// thorough: the order of every single map iteration is an environment choice in EVERY scenario (cost 1)
+			body := sc.body
+			sc.body = func() { rt.SetMapOrderChoices(true); body() }
+		}
 		exploreCost(rep, sc.name, sc.body, sc.check, bound-sc.lessBound, 1, dl)
 	}
 	for _, rr := range raceReports() {
